@@ -74,7 +74,7 @@ type Dst struct {
 }
 
 var gapChoices = []int{0, 0, 0, 1, 10, 100}
-var arities = []int{0, 1, 2, 3, 4, 7}
+var arities = []int{0, 1, 2, 3, 4, 7, 2, 3, 65, 130} // (wide merges: implementations switch strategy with the number of inputs)
 
 func genInput(t *rapid.T, streamKind bool) Input {
 	in := Input{ErrAt: -1}
@@ -805,4 +805,102 @@ func runErrStorm(p ErrStormPlan) (vk.Outcome, error) {
 func TestStreamMergeErrorStorm(t *testing.T) {
 	theT = t
 	vk.Run(t, suite, "stream-merge-error-storm", 40, genErrStorm, runErrStorm)
+}
+
+// ---------------------------------------------------------------- chans.Replicate over interface values incl. nil
+
+type RepIfacePlan struct {
+	N    int   `json:"n"`    // values
+	Dsts []int `json:"dsts"` // buffer size of each destination
+}
+
+func genRepIface(t *rapid.T) RepIfacePlan {
+	return RepIfacePlan{N: rapid.IntRange(0, 8).Draw(t, "n"), Dsts: rapid.SliceOfN(rapid.SampledFrom([]int{0, 1, 4}), 0, 5).Draw(t, "dsts")}
+}
+
+func runRepIface(p RepIfacePlan) (vk.Outcome, error) {
+	var out vk.Outcome
+	err := bubble(func() error {
+		src := make(chan error, 1)
+		vals := make([]error, p.N)
+		for k := range vals {
+			if k%2 == 0 {
+				vals[k] = nil // a nil error is a value like any other
+			} else {
+				vals[k] = sk.NewSentinel(fmt.Sprintf("v%d", k))
+			}
+		}
+		dsts := make([]chan error, len(p.Dsts))
+		wo := make([]chan<- error, len(p.Dsts))
+		for i, b := range p.Dsts {
+			dsts[i] = make(chan error, b)
+			wo[i] = dsts[i]
+		}
+		panicked := make(chan any, 1)
+		done := make(chan struct{})
+		go func() {
+			defer close(done)
+			defer func() {
+				if r := recover(); r != nil {
+					panicked <- r
+				}
+			}()
+			chans.Replicate(src, wo...)
+		}()
+		go func() {
+			for _, v := range vals {
+				src <- v
+			}
+			close(src)
+		}()
+		got := make([][]error, len(dsts))
+		var wg sync.WaitGroup
+		quit := make(chan struct{})
+		for i := range dsts {
+			wg.Add(1)
+			go func(i int) {
+				defer wg.Done()
+				for len(got[i]) < p.N {
+					select {
+					case v := <-dsts[i]:
+						got[i] = append(got[i], v)
+					case <-quit:
+						return
+					}
+				}
+			}(i)
+		}
+		synctest.Wait()
+		close(quit)
+		wg.Wait()
+		select {
+		case r := <-panicked:
+			return vk.Violf("replicate-panic", "chans.Replicate over chan error (every other value is a nil error) to %d destinations panicked: %v", len(dsts), r)
+		default:
+		}
+		for i := range dsts {
+			if len(got[i]) != p.N {
+				return vk.Violf("lost-value", "destination %d of %d received %d of %d values", i, len(dsts), len(got[i]), p.N)
+			}
+			for k, v := range got[i] {
+				if v != vals[k] {
+					return vk.Violf("order", "destination %d: value #%d is %v, sent %v", i, k, v, vals[k])
+				}
+			}
+		}
+		select {
+		case <-done:
+		default:
+			return vk.Violf("not-finished", "chans.Replicate has not returned although its source is closed and everything was delivered")
+		}
+		return nil
+	})
+	out.NonTrivial = p.N >= 2 && len(p.Dsts) >= 2
+	out.Label(fmt.Sprintf("replicate-iface/dsts=%d", len(p.Dsts)))
+	return out, err
+}
+
+func TestReplicateInterfaceValues(t *testing.T) {
+	theT = t
+	vk.Run(t, suite, "replicate-iface", 400, genRepIface, runRepIface)
 }
